@@ -266,7 +266,7 @@ class Sim:
         return show(p)
 
     def load(self, p, bits=64):
-        if p[0] == 'field' and ('rd', p) not in self.store:
+        if p[0] in ('field', 'global') and ('rd', p) not in self.store:
             self.store[('rd', p)] = True
             if getattr(self, 'cur_fn', None) is not None:
                 self.event({'kind': 'read', 'path': p, 'line': None})
